@@ -613,4 +613,9 @@ class Generator:
                 self.report["dropped"].append("%s %s" % (it.kind, it.path))
         unused = [p for p, f in self.unit.fns.items() if not f.used]
         if unused:
-            raise GenError("lost anchor: @fn blocks without a matching item in the expanded crate: " + ", ".join(unused))
+            # functions under contract that no longer exist in the tree (removed, renamed, inlined): their contracts cannot be stated;
+            # the rest of the unit is still generated and verified, and the caller (check.py) treats them as having left the fragment
+            self.report.setdefault("missing_fns", [])
+            for p in unused:
+                if p not in self.report["missing_fns"]:
+                    self.report["missing_fns"].append(p)
